@@ -19,6 +19,10 @@ FLAT_SCRIPTS = [
     # everything must arrive and the output must complete (the limit makes the second one wait for the first)
     ("(o (hoti 0))", ["(o (coldi (n 7) c)) (o c)", "(i 0 (n 1)) (i 0 c)"]),
     ("(o (hoti 0)) (o (hoti 1))", ["(o (coldi (n 7) c)) (o c)", "(i 0 (n 1)) (i 0 c) (i 1 (n 5)) (i 1 c)"]),
+    # two running inner observables end on two threads while synchronous ones wait for a slot: the one that hands its slot on
+    # starts a waiting one (which runs to its end at once) while the other one's completion arrives
+    ("(o (hoti 0)) (o (hoti 1)) (o (coldi (n 7) c)) (o c)", ["(i 0 c)", "(i 1 c)"]),
+    ("(o (hoti 0)) (o (hoti 1)) (o (coldi (n 7) c)) (o (coldi (n 8) c)) (o c)", ["(i 0 (n 1)) (i 0 c)", "(i 1 (n 5)) (i 1 c)"]),
     ["(o (hoti 0)) (i 0 (n 1))", "(o (hoti 1)) (i 1 (n 5))"],
     ["(o (hoti 0)) (i 0 (n 1)) (i 0 c)", "(o (coldi (n 7) (n 8) c)) (o c)"],
     ["(o (hoti 0)) (i 0 (n 1))", "u"],
@@ -89,6 +93,11 @@ def cases(tier, rng, prefix="j", kinds=("op2", "flat", "fin", "hot", "share"), o
     if "flat" in kinds:
         for lim in FLAT_LIMITS:
             for th in FLAT_SCRIPTS:
+                # a hot inner observable that waits for a slot misses what happens to it meanwhile (it is a Subject): with two of
+                # them handed over in the prologue the limit has to admit both
+                # (and with no limit the synchronous ones would run inside the prologue, whose deliveries are not part of the trace)
+                if lim != "2" and isinstance(th, tuple) and th[0].count("hoti") > 1 and "coldi" in th[0]:
+                    continue
                 if want(th):
                     add("(flat %s)" % lim, th, "flat")
     if "fin" in kinds:
